@@ -409,7 +409,7 @@ def oracle_C18_pair(cn, rn, cl, rl):
 
 # ---------------- C19 ----------------
 IDENTS = ["foo", "é", "naïve_1", "_x", "script", "if", "TRUE", "value", "ünï", "𝒳x", "VAR_𝒳"]
-NUMS = ["0", "7", "42", "-3", "0x1F", "007", "0x", "0x1f", "0xdeadBEEF", "0xa"]
+NUMS = ["0", "7", "42", "-3", "0x1F", "007", "0x", "0x1f", "0xdeadBEEF", "0xa", "-0"]
 PUNCT = ["(", ")", "{", "}", "[", "]", ",", ":", "*", "=", "==", "!=", "!", "<", "<=", ">", ">=", "&&", "||"]
 ILLEGAL = ["+", "€", "&", "|", "-", "@", "/", "😀"]
 STRS = ['"hi"', '"héllo wörld"', '""', '"a\\pb$"', '"𠮷野$"', '"😀 ok"']
